@@ -55,7 +55,7 @@ from .._utils.ipaddress import (
     ip_bytes_and_scope_to_address,
     str_without_scope_id,
 )
-from .._utils.name import service_type_name
+from .._utils.name import name_can_be_encoded, service_type_name
 from .._utils.net import IPVersion, _encode_address
 from .._utils.time import current_time_millis
 from ..const import (
@@ -882,6 +882,15 @@ class ServiceInfo(RecordUpdateListener):
         }
         if skip_if_known_answers and known_answers:
             return
+        # A host name learned from a received record, or the target of a cached record,
+        # may hold a label that cannot be sent back
+        if not name_can_be_encoded(name):
+            return
+        known_answers = {
+            answer
+            for answer in known_answers
+            if not isinstance(answer, DNSService) or name_can_be_encoded(answer.server)
+        }
         question = DNSQuestion(name, type_, class_)
         if qu_question:
             question.unicast = True
